@@ -249,6 +249,7 @@ def judgeLine (s0 : JState) (line : String) : JState :=
             if s.frames.any (fun f => match f with | Frame.dest _ => true | _ => false) then s
             else s.flag s!"move_or_destruct-outside-destruct {line}"
           else if k == "act" then s   -- a command reached the action of a live object (checked above)
+          else if k == "id" then s    -- present() asks a live object
           else s.flag s!"unexpected-line {line}"
         { s with frames := Frame.hook x :: s.frames }
       | none => s.flag s!"unexpected-line {line}"
@@ -292,6 +293,14 @@ def judgeLine (s0 : JState) (line : String) : JState :=
         else s
       | none => s.flag s!"unexpected-line {line}"
     | ["r", "mvs", _a, _name, _res] => s
+    | ["r", "pr", e, t, v] =>
+      let s := stepEvent s
+      let s := useLive s "present" line (jOid v)
+      match jOid e, jOid v with
+      | some e, some r =>
+        let s := if jOid t == some r then s else s.flag s!"present-wrong-object {line}"
+        if envIs s r e then s else s.flag s!"present-outside-environment o{r} is not in o{e}: {line}"
+      | _, _ => s
     | ["r", "fis", _name, v] => useLive (stepEvent s) "first_inventory" line (jOid v)
     | ["deb", a] =>
       match jOid a with
